@@ -288,6 +288,18 @@ def log5(ctx):
         n += 1
         ctx.check(ok and must, '%s:forward' % b.path, where(b, seeks[0].point), 'forward(n): seek(Current(n)) and offset += n on every success path',
                   'forward() does not both seek by its argument and add it to the offset')
+        # the amount handed over is used as it is: only additions (and casts) are applied to it
+        t_loc = fl.forward(set(fl.local_sources(2)), skip_mem=True)
+        bad_ops = []
+        for bi, blk in enumerate(b.blocks):
+            if not b.live[bi]:
+                continue
+            for st in blk['stmts']:
+                if st['k'] == 'assign' and st['rv']['k'] == 'binop' and not st['rv']['op'].startswith('Add') and st['rv']['op'] not in ('Eq', 'Ne', 'Lt', 'Le', 'Gt', 'Ge'):
+                    if fl.op_tainted(st['rv']['a'], t_loc) or fl.op_tainted(st['rv']['b'], t_loc):
+                        bad_ops.append(st['rv']['op'])
+        ctx.check(not bad_ops, '%s:forward-unreduced' % b.path, where(b, seeks[0].point), 'the amount handed to forward() reaches seek and offset through additions only',
+                  'forward() reduces or rescales the position it is given (%s) before using it: at an exact block / file alignment (cursor = BLOCK_NUM_BYTES) the writer would resume somewhere else than where the reader stopped and overwrite stored entries' % sorted(set(bad_ops)))
         if ok and must:
             fwd.append(b.id)
     # (ii) frame reader conversion must-calls forward(cursor)
@@ -313,7 +325,7 @@ def log5(ctx):
         ctx.missing('chain', 'reader->writer hand-over chain incomplete (%d of 3 links found)' % n)
 
 
-@rule('GC10', ['C01', 'C04', 'C18'], floor=2, template='ordering')
+@rule('GC10', ['C01', 'C03', 'C04', 'C18'], floor=2, template='ordering')
 def gc10(ctx):
     """The GC position pass snapshots the queues AFTER the call's own in-memory update."""
     n = 0
